@@ -2,6 +2,8 @@ import UrcuVerif.Src.DeferLocal
 import UrcuVerif.Src.DeferExec
 import UrcuVerif.Src.DeferRefine
 import UrcuVerif.Src.DeferAbs
+import UrcuVerif.Src.DeferWaker
+import UrcuVerif.Src.DeferFull
 /-!
 # Source refinement, component "defer_rcu queue codec" (C13): generated IR of `_defer_rcu`, `rcu_defer_barrier_queue`,
 # `wake_up_defer` ⊑ L2
@@ -114,6 +116,102 @@ theorem rcu_defer_barrier_queue_events (fuel : Nat) (env : Env) (base : Loc) (T 
         o.events = (loopSpec base H fuel T lo inp []).events ∧ o.ctl = (loopSpec base H fuel T lo inp []).ctl) := by
   obtain ⟨o, h1, h2, h3, h4⟩ := cons_exec fuel env base T H lo inp hq hH hT hlo hw
   exact ⟨o, h1, h2, fun hn => ⟨(h3 hn).1, (h3 hn).2.1⟩, h4⟩
+
+/-- **prefixes**: every run – completed, blocked at any access, out of budget – whose slot loads so far returned the ring's
+content has made a PREFIX of the calls `runQ` decodes, in order (whenever `runQ` does not overrun); only a completed run
+stores `tail`. -/
+theorem rcu_defer_barrier_queue_prefix (fuel : Nat) (env : Env) (base : Loc) (x : TState) (H now : Nat) (inp : List Val)
+    (hq : env.vars "queue" = some (.ptr base)) (hH : env.vars "head" = some (.int (H : Int)))
+    (hr : RelR env base x) (hw : WordInp inp) :
+    ∃ out, exec fuel Gen.Src.«rcu_defer_barrier_queue» env inp = .ok out ∧
+      (LoadsFrom base x.q out.events → ∀ x' calls, runQ Cfg.real x H now = some (x', calls) →
+        ∃ k, callsOf out.events = (calls.take k).map callV) ∧
+      (out.ctl ≠ .normal → storesOf out.events = []) :=
+  barrier_queue_prefix fuel env base x H now inp hq hH hr hw
+
+/-! ## (1') producer, full-queue path: `rcu_defer_barrier_thread()` inside `_defer_rcu` -/
+
+/-- **`rcu_defer_barrier_thread()`** by the owner (private `head = H`, `tail = T`, `last_fct_out = lo`; it holds the mutex
+between the two calls): the run is `flushSpec` – `mutex_lock_defer(&rcu_defer_mutex)`; nothing queued: `mutex_unlock`;
+otherwise `synchronize_rcu()`, the loop of `rcu_defer_barrier_queue(&defer_queue, H)` (`loopSpec`), `mb`, `tail := H`,
+`mutex_unlock` – for every budget and every oracle of words (prefixes included). -/
+theorem rcu_defer_barrier_thread_refines (fuel : Nat) (env : Env) (H T : Nat) (lo : BitVec 64) (inp : List Val)
+    (hh : env.priv (.field dq "head") = some (.int (H : Int))) (hT : env.priv (.field dq "tail") = some (.int (T : Int)))
+    (hlo : env.priv (.field dq "last_fct_out") = some (wv lo)) (hw : WordInp inp) :
+    ∃ o, exec fuel Gen.Src.«rcu_defer_barrier_thread» env inp = .ok o ∧
+      o.events = (flushSpec fuel H T lo inp).events ∧ o.inp = (flushSpec fuel H T lo inp).inp ∧
+      o.ctl = (flushSpec fuel H T lo inp).ctl ∧
+      ((flushSpec fuel H T lo inp).ctl = .normal →
+        o.env.priv (.field dq "tail") = some (.int (H : Int)) ∧
+        o.env.priv (.field dq "last_fct_out") = some (wv (flushSpec fuel H T lo inp).lo) ∧
+        ∀ l, l ≠ .field dq "last_fct_out" → l ≠ .field dq "tail" → o.env.priv l = env.priv l) := by
+  obtain ⟨o, h, h1, h2, h3, h4⟩ := barrier_thread_exec (fuel := fuel) (env := env) (inp := inp) rfl H T lo hh hT hlo hw
+  exact ⟨o, h, h1, h2, h3, fun hn => (h4 hn).2⟩
+
+/-- a completed flush whose loads read the model's ring makes exactly the calls of `Defer.runQ x head` (the model's
+`flushRun`), after `synchronize_rcu()` when something is queued -/
+theorem rcu_defer_barrier_thread_model (fuel : Nat) (x : TState) (now : Nat) (inp : List Val)
+    (hn : (flushSpec fuel x.head x.tail x.lastOut inp).ctl = .normal)
+    (hl : LoadsFrom dq x.q (flushSpec fuel x.head x.tail x.lastOut inp).events) :
+    ∃ x' calls, runQ Cfg.real x x.head now = some (x', calls) ∧
+      callsOf (flushSpec fuel x.head x.tail x.lastOut inp).events = calls.map callV ∧
+      x'.lastOut = (flushSpec fuel x.head x.tail x.lastOut inp).lo ∧ x'.tail = x.head ∧ x'.head = x.head ∧
+      x'.lastIn = x.lastIn ∧ x'.q = x.q ∧
+      (x.head ≠ x.tail → ∃ l s pre, (flushSpec fuel x.head x.tail x.lastOut inp).events = lockE l :: syncE s :: pre) :=
+  flushSpec_model fuel x now inp hn hl
+
+/-- **`_defer_rcu(fct, p)`, full-queue path ⊑ `Defer` model** (`enq` answers `full`; `flushSnapshot ; gp ; flushRun` of the
+own queue; `enq`): see `DeferR.defer_rcu_full_model`.  Not covered: the run after a FAILED
+`urcu_posix_assert(head - tail == 0)` (the re-load of `tail` returns something else than `head`: the IR then shows the call of
+`abort`; the model's `no_abort` theorem excludes it). -/
+theorem _defer_rcu_full_refines (fuel : Nat) (priv : Loc → Option Val) (x : TState) (f p : BitVec 64) (tl now : Nat)
+    (rest : List Val) (hr : RelO ⟨bindParams Gen.Src.«_defer_rcu.params» [wv f, wv p], priv⟩ x)
+    (hrr : RelR ⟨bindParams Gen.Src.«_defer_rcu.params» [wv f, wv p], priv⟩ dq x)
+    (hfull : needFlush Cfg.real { x with tail := tl } = true) (hw : WordInp rest) :
+    ∃ out, exec fuel Gen.Src.«_defer_rcu» ⟨bindParams Gen.Src.«_defer_rcu.params» [wv f, wv p], priv⟩
+        (.int (tl : Int) :: rest) = .ok out ∧
+      ((flushSpec fuel x.head x.tail x.lastOut rest).ctl ≠ .normal →
+        out.events = .ld (.field dq "tail") (.int (tl : Int)) 0 :: (flushSpec fuel x.head x.tail x.lastOut rest).events ∧
+        out.ctl = (flushSpec fuel x.head x.tail x.lastOut rest).ctl) ∧
+      ((flushSpec fuel x.head x.tail x.lastOut rest).ctl = .normal →
+        LoadsFrom dq x.q (flushSpec fuel x.head x.tail x.lastOut rest).events →
+        ∃ x1 calls, runQ Cfg.real x x.head now = some (x1, calls) ∧
+          callsOf (flushSpec fuel x.head x.tail x.lastOut rest).events = calls.map callV ∧
+          ∀ r2, (flushSpec fuel x.head x.tail x.lastOut rest).inp = .int (x.head : Int) :: r2 →
+            out.events = .ld (.field dq "tail") (.int (tl : Int)) 0 ::
+              ((flushSpec fuel x.head x.tail x.lastOut rest).events ++
+                .ld (.field dq "tail") (.int (x.head : Int)) 0 :: (stores dq x.head (enqT Cfg.real x1 f p now).2 ++
+                [.fence .wmb, .st (.field dq "head") (.int ((enqT Cfg.real x1 f p now).1.head : Int)) 0, .fence .mb] ++
+                (wakeSpec r2).1)) ∧
+            out.inp = (wakeSpec r2).2.1 ∧ out.ctl = (wakeSpec r2).2.2 ∧
+            RelO out.env (enqT Cfg.real x1 f p now).1 ∧ RelR out.env dq (enqT Cfg.real x1 f p now).1) :=
+  defer_rcu_full_model fuel _ x f p tl now rest (by simp [bindParams, Gen.Src.«_defer_rcu.params»])
+    (by simp [bindParams, Gen.Src.«_defer_rcu.params»]) hr hrr hfull hw
+
+/-! ## (1'') producer as waker of the defer thread's futex (`Defer/ConcWake.lean`) -/
+
+/-- **`_defer_rcu(f, p)` ⊑ waker `i`** (non-full path): with the futex component's abstraction of `wake_up_defer()`
+(`Props/SrcFutex.wake_up_defer_refines`: `absEvK dfF "futex_noasync"`, contract `WakeRetOk` / `evOk`) extended by the caller's
+two events – the store of `head` is L2's `k0`, the following `cmm_smp_mb()` is `kf`; the load of `tail`, the `q[]` stores and
+`wmb` are silent (`absKD`) – the run is accepted by the owner's local automaton `Futex.Df.kstep` (projection of
+`DeferWake.step`: `Futex.Df.projK_step` / `projK_enabled` / `projK_frame`) from pc `k0`, any register content:
+`k0 ; kf ; k1 v ; (k2Wake ; k3 | k2Skip)`, back at `k0` when the call completes; blocked runs are prefixes. -/
+theorem _defer_rcu_refines_waker (fuel : Nat) (priv : Loc → Option Val) (f p last : BitVec 64) (head : Nat) (tl : Int)
+    (rest : List Val)
+    (hh : priv (.field dq "head") = some (.int (head : Int)))
+    (hl : priv (.field dq "last_fct_in") = some (wv last))
+    (hnf : (head : Int) - tl < 4094) (hi : IntInp rest) (hr : Futex.WakeRetOk rest) :
+    ∃ out, exec fuel Gen.Src.«_defer_rcu» ⟨bindParams Gen.Src.«_defer_rcu.params» [wv f, wv p], priv⟩
+        (.int tl :: rest) = .ok out ∧
+      (out.events.all (Futex.evOk Futex.dfF) = true → ∀ r0, ∃ ks' labs,
+        Futex.labelsOf absKD out.events = some labs ∧ Futex.runA Futex.Df.kstep ⟨.k0, r0⟩ labs = some ks' ∧
+        (out.ctl = .normal → ks'.kpc = .k0)) := by
+  obtain ⟨out, h1, h2⟩ := defer_rcu_waker fuel ⟨bindParams Gen.Src.«_defer_rcu.params» [wv f, wv p], priv⟩ f p last head tl
+    rest (by simp [bindParams, Gen.Src.«_defer_rcu.params»]) (by simp [bindParams, Gen.Src.«_defer_rcu.params»]) hh hl hnf hi hr
+  refine ⟨out, h1, fun hok r0 => ?_⟩
+  obtain ⟨ks', ha, hc⟩ := h2 hok r0
+  obtain ⟨labs, l1, l2⟩ := (Futex.accept_iff _ _ _ _ _).1 ha
+  exact ⟨ks', labs, l1, l2, hc⟩
 
 /-! ## (3) round trip -/
 
@@ -265,6 +363,26 @@ example : DeferL.rlrun (rstart 0 5 7 0x10#64) [.ld 5 0x21#64, .ld 6 0x3#64, .inv
   have h1 : isFct 0x21#64 = true := by decide
   have h2 : clrFct 0x21#64 = 0x20#64 := by decide
   simp [DeferL.rlrun, DeferL.rlstep, rstart, h1, h2]
+
+/-- the waker view of the producer run above when the futex word is read as `-1`: `k0 ; kf ; k1 (-1) ; k2Wake ; k3` -/
+example : ∃ out, exec 1 Gen.Src.«_defer_rcu» ⟨bindParams Gen.Src.«_defer_rcu.params» [wv 0x20#64, wv 0x3#64], priv0⟩
+      [.int 5, .int (-1), .int 1] = .ok out ∧
+    Futex.labelsOf absKD out.events = some [.k0, .kf, .k1 (-1), .k2Wake, .k3] := by
+  obtain ⟨out, h, he, -⟩ := _defer_rcu_refines 1 priv0 x0 0x20#64 0x3#64 5 0 [.int (-1), .int 1]
+    (by simp [RelO, priv0, x0]) (by decide) (by simp [IntInp])
+  refine ⟨out, h, ?_⟩
+  rw [he]
+  simp [enqT, x0, enc_ex, stores, wakeSpec, Futex.labelsOf, absKD, Futex.absEvK, Futex.wakeArgs, wakeArgs, futexL, dq, slot,
+    Futex.Df.gk2l]
+
+example : Futex.runA Futex.Df.kstep ⟨.k0, 0⟩ [.k0, .kf, .k1 (-1), .k2Wake, .k3] = some ⟨.k0, -1⟩ := by decide
+
+/-- the flush of a non-empty own queue (`tail = 5`, `head = 7`, words `0x21, 0x3`): lock, synchronize_rcu, rmb, 2 loads,
+the call, mb, tail := 7, unlock: 9 events -/
+example : (flushSpec 2 7 5 0x10#64 [wv 0#64, wv 0#64, wv 0x21#64, wv 0x3#64, wv 0#64, wv 0#64]).events.length = 9 ∧
+    (flushSpec 2 7 5 0x10#64 [wv 0#64, wv 0#64, wv 0x21#64, wv 0x3#64, wv 0#64, wv 0#64]).ctl = .normal := by
+  have h1 : isFct 0x21#64 = true := by decide
+  simp [flushSpec, loopSpec, iterSpec, h1]
 
 end examples
 
